@@ -67,6 +67,19 @@ let handle (toks : string list) : string =
        let rv = String.concat ";" (List.map (fun c ->
            string_of_int c ^ ":" ^ String.concat "." (List.rev_map (fun v -> string_of_int (int_of_nat v)) (st.chs (nat_of_int c)).c_recvd)) chans) in
        Printf.sprintf "accepted d=%d nsent=%s recv=%s panicked=%b" (List.length st.log) ns rv st.panicked)
+  | "drun" :: ls ->
+    (* Feed without the one-subscription-per-channel restriction; a label may carry `@hint` (index chosen by Select) *)
+    let split t = match String.split_on_char '@' t with [a; h] -> (a, int_of_string h) | _ -> (t, 0) in
+    let labels = List.map (fun t -> let (a, h) = split t in (parse a, nat_of_int h)) ls in
+    (match drun_from dinit labels O with
+     | Inr n -> let i = int_of_nat n in "rejected " ^ string_of_int i ^ " " ^ List.nth ls i
+     | Inl st ->
+       let sids = uniq (List.concat_map (fun t -> match String.split_on_char ':' t with ["ret"; s; _] -> [int_of_string s] | _ -> []) ls) in
+       let chans = uniq (List.concat_map (fun t -> match String.split_on_char ':' t with ["sub"; c; _] -> [int_of_string c] | _ -> []) ls) in
+       let ns = String.concat "," (List.map (fun s -> string_of_int s ^ ":" ^ string_of_int (int_of_nat (count_snd (nat_of_int s) st.d_log))) sids) in
+       let rv = String.concat ";" (List.map (fun c ->
+           string_of_int c ^ ":" ^ String.concat "." (List.rev_map (fun v -> string_of_int (int_of_nat v)) (st.d_chs (nat_of_int c)).c_recvd)) chans) in
+       Printf.sprintf "accepted d=%d nsent=%s recv=%s panicked=%b" (List.length st.d_log) ns rv st.d_panicked)
   | "mrun" :: ls ->
     (* TypeMux: accepted d=<deliveries> got=<s:p.p.p;...> (posts delivered to each subscription, sorted: concurrent Posts have no common order) panicked=<b> *)
     (match mrun_from minit (List.map mparse ls) O with
